@@ -24,7 +24,7 @@ use crate::revision::Revision;
 use crate::revisiontree::RevisionTree;
 use crate::utils::{
     apply_diff_patch, digest_bytes, digest_object, digest_string, flatten, is_array_descriptor,
-    make_diff_patch, merge_arrays, unflatten,
+    is_too_deep, make_diff_patch, merge_arrays, unflatten,
 };
 use anyhow::{anyhow, bail, Result};
 use lazy_static::lazy_static;
@@ -469,6 +469,10 @@ impl Melda {
     /// assert!(result.unwrap().is_none());
     /// ```
     pub fn create_object(&self, uuid: &str, obj: Map<String, Value>) -> Result<Option<String>> {
+        // An object that could be written but not parsed back is refused
+        if is_too_deep(&obj) {
+            bail!("object_nested_too_deeply")
+        }
         // Create initial revision
         let rev = Revision::new(
             1u32,
@@ -524,6 +528,10 @@ impl Melda {
     /// assert_eq!(result.unwrap().unwrap(), "1-9e84b4db64036b29b7ad7def2efa95a11e1ffe93e6e5cf56e93b07ef8d3976ff");
     /// ```
     pub fn update_object(&self, uuid: &str, obj: Map<String, Value>) -> Result<Option<String>> {
+        // An object that could be written but not parsed back is refused
+        if is_too_deep(&obj) {
+            bail!("object_nested_too_deeply")
+        }
         // Obtain the revision tree (either an existing one of a new one)
         let docs_r = self
             .documents
@@ -766,6 +774,12 @@ impl Melda {
         // If there is nothing staged, skip commit
         if !self.has_staging() {
             return Ok(None);
+        }
+        // Commit information that could be written but not parsed back is refused
+        if let Some(information) = &information {
+            if is_too_deep(information) {
+                bail!("information_nested_too_deeply")
+            }
         }
         // Automatically resolve conflicts in array_descriptors
         let mut to_resolve = Vec::<(String, String)>::new();
@@ -1623,6 +1637,11 @@ impl Melda {
     /// let check = serde_json::to_string(&object).unwrap();
     /// assert!(content == check);
     pub fn update(&self, obj: Map<String, Value>) -> Result<String> {
+        // A document that could be written but not parsed back is refused as a whole, before
+        // any of its objects is staged
+        if is_too_deep(&obj) {
+            bail!("document_nested_too_deeply")
+        }
         let mut extracted_objects = HashMap::<String, Map<String, Value>>::new();
         let path = Vec::<String>::new();
         let root = Value::from(obj);
